@@ -14,7 +14,8 @@
        [remove_early_history_refuted], [checkpoint_write_prev_refuted]) and of the prune race
        ([prune_race_refuted]); examples. *)
 From Coq Require Import Permutation Lia ZArith List Bool.
-From IAVL Require Import Bytes Varint Tree MTree V2 V2Facts Sha256 V2Orphans.
+From IAVL Require Import Bytes Varint Tree MTree V2 V2Facts Sha256.
+From IAVL Require Import V2Orphans.
 Import ListNotations.
 Local Open Scope Z_scope.
 
@@ -1094,7 +1095,8 @@ Section Save.
           split; [assumption|]. split; [subst v; lia|]. split; [apply in_or_app; auto|].
           intros v' T' J' L'. apply in_app_or in J'. destruct J' as [J'|[J'|[]]]; [eauto|].
           inversion J'; subst. rewrite okeys_hash_root. assumption.
-        * apply in_map_iff in J. destruct J as (x0 & E & J). inversion E; subst x0 a. clear E.
+        * destruct (root_is_branch T); [|destruct J].
+          apply in_map_iff in J. destruct J as (x0 & E & J). inversion E; subst x0 a. clear E.
           destruct (i_pend _ _ _ I x J) as (A & B). subst T. rewrite okeys_hash_root.
           split; [assumption|]. split; [subst v; lia|]. split; [apply in_or_app; right; left; reflexivity|].
           intros v' T' J' L'. apply in_app_or in J'. destruct J' as [J'|[J'|[]]].
